@@ -490,7 +490,8 @@ def shard_badkeys(rec):
     # key FORMS that are longer than the key: a bit string of more than `width` characters, a byte string of more whole bytes than the width
     # needs - also when the extra leading bits are zero (the key would be stored under the shorter key: two different keys, one entry)
     for width in (1, 3, 4, 8, 12, 16, 256):
-        forms = [('bit string', '0' + format(1, f'0{width}b')), ('bit string', '000' + '1' * width), ('bit string', '0' * (width + 1)),
+        forms = [('bit string', '-0'), ('bit string', '+1'), ('bit string', '0b1'), ('bit string', ' 1'), ('bit string', '1_0' if width >= 3 else '1_'), ('bit string', '1\n'),
+                 ('bit string', '0' + format(1, f'0{width}b')), ('bit string', '000' + '1' * width), ('bit string', '0' * (width + 1)),
                  ('bytes', bytes(1) + (1).to_bytes((width + 7) // 8, 'big')), ('bytes', bytes(2) + b'\xff' * ((width + 7) // 8)), ('bytes', bytes((width + 7) // 8 + 1))]
         for fname, key in forms:
             for prefill in ([], [1]):
